@@ -6,10 +6,27 @@ import os
 HERE = os.path.dirname(os.path.abspath(__file__))
 
 TECH_P = "contract-based deductive verification: pyvc (own AST->SMT verifier, sidecar contracts on the real functions, z3/cvc5)"
+BOUNDED = "no contract within reach of the verifier decides this property as a whole; bounded run-time contract checking of the real API is the stand-in (labelled B / E, never counted as proved)"
 CHECKS = {
-    "C01": ("proof", "Layer-1 contracts of every deserialization node class (accepts-iff-conforms, typed image) discharged for arbitrary children and data; selection layer and typing dispatch covered by a bounded run-time contract of deserialize against the reference semantics", "4.1, 7 C01"),
-    "C02": ("proof", "exact error value (messages in order, one child per rejected element under its key / index) in the raising branch of the node contracts, proved for all inputs; whole-type error listing checked by the bounded driver", "7 C02"),
-    "C03": ("proof", "`raises only ValidationError` and frame (`modifies` nothing that existed at entry) obligations on every node function, for data an unconstrained value; crash-freedom of the compiled tree on non-JSON data, coercion and input purity additionally by the bounded driver", "7 C03"),
+    "C01": ("Layer-1 contracts of every deserialization node class (accepts-iff-conforms, typed image) discharged for arbitrary children and data, incl. the object node with its cardinality shortcut; selection layer and typing dispatch covered by a bounded run-time contract of deserialize against the reference semantics", "4.1, 7 C01"),
+    "C02": ("exact error value (messages in order, one child per rejected element under its key / index) in the raising branch of the node contracts, proved for all inputs; whole-type error listing checked by the bounded driver", "7 C02"),
+    "C03": ("`raises only ValidationError` and frame (`modifies` nothing that existed at entry) obligations on every node function and on coerce(), for data an unconstrained value; crash-freedom of the compiled tree on non-JSON data, coercion and input purity additionally by the bounded driver", "7 C03"),
+    "C04": ("reference serialization (omission rule from the statement) as run-time postcondition of serialize over generated types / values / option sets", "7 C04"),
+    "C05": ("round-trip run-time contracts over the bijective fragment, standard converted types and discriminated unions", "7 C05"),
+    "C06": ("agreement of deserialize with an independent validator (jsonschema 2020-12) on deserialization_schema over types x options x data", "7 C06"),
+    "C07": ("serialize output validated against serialization_schema by an independent validator under the global exclude settings", "7 C07"),
+    "C08": ("check-only / input-returning variants proved to return the input itself and the pass-through node proved equivalent to its fallback on non-instances (node contracts); option equivalences (no_copy, constructors override, precomputed methods, check_type, pass-through flags) by bounded pairwise comparison", "7 C08"),
+    "C09": ("ghost invariant `every registered cache cleared after every mutation` proved on reset(), cache(), CacheAwareDict.__setitem__/__delitem__ and ResetCache.__setattr__, so by induction on the history no operation leaves a stale cache; an exhaustive AST scan forces every configuration root through one of these mutators; bounded history driver compares observations with a cold start", "7 C09"),
+    "C10": ("generated validator programs: run set, order, merge and construction compared with the statement's rules", "7 C10"),
+    "C11": ("external-name function of the statement compared on every view (deserialize, serialize, schemas, error locations, GraphQL)", "7 C11"),
+    "C12": ("conversion node contracts (deserialize(T,d) = f(deserialize(S,d)), rejects exactly what S rejects) proved; placement / inheritance / schema rules by the commuting-square driver", "7 C12"),
+    "C13": ("Optional / Union / by-type / discriminator node contracts proved against try-each-alternative semantics (accept iff some alternative accepts, image of an accepting alternative, exact discriminator errors); selection guards and serialization side by the bounded driver", "7 C13"),
+    "C14": ("coerce() proved against the documented table and to raise only ValidationError; CoercerMethod / Optional / Literal coercion branches proved to re-check the coerced value and to only widen; whole-type monotonicity by the bounded driver", "7 C14"),
+    "C15": ("operation sequences on with_fields_set classes against a reference model of the tracked set", "7 C15"),
+    "C16": ("exhaustive small-scope enumeration of ordering specifications against the statement's placement function on the three views", "7 C16"),
+    "C17": ("well-formedness / closure / extraction rules checked on generated type graphs x options x versions", "7 C17"),
+    "C18": ("the draft 2019-09 / draft-07 rewrites and isolate_ref proved to be the exact documented key mapping with fresh result and untouched input (vocabulary postconditions); nesting-level application and validator agreement per dialect by the bounded driver", "7 C18"),
+    "C19": ("GraphQL schema mirror and execution compared with the model and with (de)serialize over generated operations", "7 C19"),
 }
 
 
@@ -23,7 +40,15 @@ def main():
     ]
     checks = []
     for pid in sorted(CHECKS):
-        cat, text, ref = CHECKS[pid]
+        text, ref = CHECKS[pid]
+        evp = os.path.join(HERE, "evidence", pid + ".json")
+        cat = "exploration"
+        if os.path.exists(evp):
+            with open(evp) as f:
+                ev = json.load(f)
+            cat = ev["level"]
+        if cat != "proof":
+            text = text + " -- " + BOUNDED
         checks.append(
             {
                 "property_id": pid,
@@ -33,7 +58,7 @@ def main():
                 "replay_cmd_template": f"./check {pid} --replay {{path}}",
                 "engine": "pyvc" if cat == "proof" else "drivers",
                 "level_claimed": {"category": cat, "text": text, "design_ref": "DESIGN.md section " + ref},
-                "level_note": "trusted: pyvc's translation and operation models, the Python semantics assumed by the encoding (integers mathematical, == as identity of canonical values, unbounded stack), z3/cvc5, the specification functions, the induction over types (cases machine-checked, schema not mechanised), contracts marked `assumed` (bad_type, merge_errors) which are checked only at run time; bounded parts are labelled B in the evidence and not counted in `discharged`",
+                "level_note": ("bounded: the driver's type / datum / history pools and sizes are written into the evidence; oracles are written from the property statement; jsonschema / graphql-core are trusted as independent oracles" if cat != "proof" else "") + " trusted: pyvc's translation and operation models, the Python semantics assumed by the encoding (integers mathematical, == as identity of canonical values, unbounded stack), z3/cvc5, the specification functions, the induction over types (cases machine-checked, schema not mechanised), contracts marked `assumed` (bad_type, merge_errors) which are checked only at run time; bounded parts are labelled B in the evidence and not counted in `discharged`",
                 "technique": TECH_P if cat == "proof" else "bounded run-time contract checking of the real functions (stand-in; no contract within reach of the verifier decides this property)",
             }
         )
@@ -43,7 +68,7 @@ def main():
     for l in open(os.path.join(HERE, "properties.jsonl")):
         pid = json.loads(l)["id"]
         if pid not in claimed and pid != "C20":
-            na.append({"property_id": pid, "reason": "check under construction in this build phase (not claimed yet)"})
+            na.append({"property_id": pid, "reason": "no check"})
     m["not_applicable"] = na
     m["notes"] = "checks rebuild everything from /repo's working tree at each run; VERIF_REPO / VERIF_OUT redirect the self-test to scratch copies"
     with open(path, "w") as f:
